@@ -58,3 +58,13 @@ Definition f_rem (a b : N) : N :=
       if r =? 0 then bits_of_sf (S754_zero sx)
       else bits_of_sf (binary_normalize prec emax (if sx then - r else r) e sx)
   end.
+
+(* conversions used by `as double` / `as int` (static_cast): an integer of at most 53 significant bits -- every int and uint -- converts exactly;
+   a double converts to an integer by truncation toward zero, and has no integer value when it is a NaN or infinite *)
+Definition f_of_Z (z : Z) : N := bits_of_sf (binary_normalize prec emax z 0 false).
+Definition f_trunc (a : N) : option Z :=
+  match sf_of_bits a with
+  | S754_zero _ => Some 0
+  | S754_finite s m e => let v := if 0 <=? e then Zpos m * 2 ^ e else Zpos m / 2 ^ (- e) in Some (if s then - v else v)
+  | _ => None
+  end.
